@@ -71,6 +71,7 @@ DONE.update({
          "rustls backend only; depth-1 chains"),
 })
 DONE["C04"] = (DONE["C04"][0], DONE["C04"][1], DONE["C04"][2] + "; plus loom models of a writer parked on credit against racing grants (m1,m3,m8,m11) and of the bridge parked on credit (m19)", DONE["C04"][3], DONE["C04"][4])
+DONE["C08"] = (DONE["C08"][0], DONE["C08"][1], DONE["C08"][2] + "; plus part C08T: the same fault enumeration (eof / reset / stall per direction, inbound end while outbound stalled, drop of either handle, at every point) with both endpoints over REAL tokio-tungstenite on an in-memory byte pipe, so that the crate's tungstenite adapter is part of the explored system", DONE["C08"][3], DONE["C08"][4])
 DONE["C06"] = (DONE["C06"][0], DONE["C06"][1], DONE["C06"][2] + "; plus loom models of an abort racing a writer parked on credit (m2,m6,m9)", DONE["C06"][3], DONE["C06"][4])
 DONE["C02"] = (DONE["C02"][0], DONE["C02"][1], DONE["C02"][2] + "; plus loom models of the real write path under racing grants (m3,m8,m12)", DONE["C02"][3], DONE["C02"][4])
 DONE["C13"] = (DONE["C13"][0], DONE["C13"][1], DONE["C13"][2] + "; plus loom models of the bridge parked on credit against a racing grant / close (m19,m20,m21)", DONE["C13"][3], DONE["C13"][4])
@@ -88,7 +89,7 @@ DONE.update({
 
 DONE.update({
  "C01": ("e2e", "exploration", "complete scenario matrix on loopback with the real client and server under the real runtime: entry point x payload length x chunking x close order x concurrency (TCP) and entry x topology x payload length (UDP); deadline hits re-run in isolation",
-         "every point of the matrix {TCP remote, Unix-socket remote, SOCKS4, SOCKS4a, SOCKS5 CONNECT ip/domain, HTTP CONNECT} x lengths {0,1,one window+} per direction x 3 chunkings x {client/target half-closes first, client/target closes both, target refuses} x {1,3} connections; UDP {remote, SOCKS5 ipv4/domain header} x {1 client, 3 clients, 1 socket to 2 entries} x payload {0,1,3,4,1400}; bytes compared end to end, half-close observed while the reverse direction still transfers, SOCKS5 UDP replies parsed with an RFC 1928 parser",
+         "every point of the matrix {TCP remote, Unix-socket remote, SOCKS4, SOCKS4a, SOCKS5 CONNECT ip/domain, HTTP CONNECT} x lengths {0,1,one window+} per direction x 3 chunkings x {client/target half-closes first, client/target closes both, target refuses} x {1,3} connections, + slow-reader cases (one end stalls while the other writes 24/48 MiB paced) and the chunking 'first payload bytes in the same write as the SOCKS request'; UDP {remote, SOCKS5 ipv4/domain header} x {1 client, 3 clients, 1 socket to 2 entries} x payload {0,1,3,4,1400}; bytes compared end to end, half-close observed while the reverse direction still transfers, SOCKS5 UDP replies parsed with an RFC 1928 parser",
          "schedules are NOT owned: one execution per matrix point under whatever interleaving the kernel and tokio produce (the interleaving-sensitive core is decided with owned schedules by C02/C05/C13); IPv6, TLS and tproxy entry points are not exercised"),
 })
 
